@@ -13,6 +13,20 @@ func TestC16(t *testing.T) {
 	params := C16Params(th)
 	checkFile(t, "C16", func(rt *rapid.T) *harness.Program {
 		p := harness.GenProgram(rt, params)
+		if p.Cfg.MaxPages > 0 && rapid.IntRange(0, 3).Draw(rt, "overflowRelease") == 0 {
+			// the last commits before the damage: a full file, metadata in the overflow area, then commits
+			// that release overflow pages again (the file shrinks; the older header must stay usable)
+			otx := func(ops ...harness.Op) harness.Item {
+				return harness.Item{Tx: &harness.Tx{Overflow: true, Ops: ops, End: harness.EndCommit}}
+			}
+			p.Items = append(p.Items,
+				harness.Item{Tx: &harness.Tx{Ops: []harness.Op{{K: harness.OpAlloc, A: 6}, {K: harness.OpWrite, A: 0, C: 41}, {K: harness.OpWrite, A: 1, C: 42}, {K: harness.OpWrite, A: 2, C: 43}, {K: harness.OpWrite, A: 3, C: 44}, {K: harness.OpWrite, A: 4, C: 45}, {K: harness.OpFill, A: 0}}, End: harness.EndCommit}},
+				otx(harness.Op{K: harness.OpWriteMany, A: rapid.IntRange(0, 30).Draw(rt, "op"), B: rapid.IntRange(2, 8).Draw(rt, "oc"), C: 46}),
+				otx(harness.Op{K: harness.OpFreeMany, A: rapid.IntRange(0, 30).Draw(rt, "fp"), B: rapid.IntRange(1, 12).Draw(rt, "fc"), C: 1}))
+			if rapid.IntRange(0, 1).Draw(rt, "more") == 1 {
+				p.Items = append(p.Items, otx(harness.Op{K: harness.OpCheckpoint}, harness.Op{K: harness.OpFreeMany, A: 0, B: rapid.IntRange(1, 6).Draw(rt, "fc2"), C: 2}))
+			}
+		}
 		thr := uint64(0)
 		if th {
 			thr = 1
